@@ -61,7 +61,7 @@ def run(tier):
             ck.finding("R1.panic-sources", "R1.panic-sources/%s/%s" % (f.parent, d.split("::")[-1]), F.short_span(sp),
                        "`%s` can reach `%s` while preparing a source text: a panic aborts the embedding process" % (f.parent, d))
     per = {}
-    for f, kind, a, b, root, ok, sp in c10.sites(fx, scope=("src/compiler/", "src/parser.rs", "src/lexer.rs")):
+    for f, kind, a, b, root, ok, sp, _stmt in c10.sites(fx, scope=("src/compiler/", "src/parser.rs", "src/lexer.rs")):
         if kind != "arith":
             continue
         ident = "%s/%s %s" % (f.parent, a, b)
@@ -187,7 +187,7 @@ def run(tier):
     ck.anchor(nrest >= 6, "functions restoring a lexer checkpoint (%d)" % nrest)
 
     # ---------------- R4
-    ck.rule("R4.loop-progress", "every natural loop of the lexer / parser has an input-state gate or a progress edge on every cycle", floor=80)
+    ck.rule("R4.loop-progress", "every natural loop of the lexer / parser has an input-state gate or a progress edge on every cycle", floor=50)
     for f in fx.fns.values():
         if not f.file.endswith(FRONT):
             continue
